@@ -112,6 +112,7 @@ class StoreRun:
         self.mem = {}  # ki -> memento object last written (real object, content_key filled in)
         self.log = []
         self.written_blobs = {}  # for C07: ki -> (content_key, bytes at creation)
+        self.faulted = False
         if self.kind == "fs":
             rm(root)
             os.makedirs(root)
@@ -220,6 +221,38 @@ class StoreRun:
             else:
                 self.written_blobs.pop(ki, None)
             return None
+        if kind == "memo_fault":
+            # memoize with an injected ENOSPC in the middle of writing the data object; the caller
+            # sees an IOError (the runner swallows it) and the dictionary is unchanged
+            from .faultfs import FaultFS
+
+            _, ki, cls = op
+            if self.budget or self.kind != "fs":
+                return None  # with a cache the failed write leaves the value cached: not this check's subject
+            sym, arg = self.keys[ki]
+            self.tick += 1
+            self.faulted = True
+            val = value_of(cls, self.tick, self.budget)
+            mem = storeh.mk_memento(sym, arg, val, self.tick)
+            mem.correlation_id = "cid_%06d" % self.tick
+            fs = FaultFS([self.root])
+            fs.match = ("open-w", os.path.join("c", ".versions"), "err_write")
+            fs.install()
+            try:
+                try:
+                    be.memoize(None, mem, val)
+                    failed = False
+                except OSError:
+                    failed = True
+            finally:
+                fs.uninstall()
+            if not failed:
+                # nothing was written (an identical object already existed): an ordinary memoize
+                self.mem[ki] = mem
+                m.memoize(ki, self.tick, cls)
+                if mem.content_key is not None:
+                    self.written_blobs[ki] = (mem.content_key, self.blob_bytes(mem.content_key), False)
+            return None
         if kind == "getm":
             ki = op[1]
             sym, arg = self.keys[ki]
@@ -299,6 +332,18 @@ class StoreRun:
         with self.be._data_source.input_versioned(content_key) as f:
             return f.read()
 
+    def _referenced(self, uuid, name):
+        """Is the object named by a link file or by the content key of a live memento?"""
+        link = os.path.join(self.dpath, "c", name + ".link")
+        if os.path.isfile(link):
+            with open(link) as f:
+                if os.path.basename(os.path.dirname(f.read())) == uuid:
+                    return True
+        for ki, (ck, _, _) in self.written_blobs.items():
+            if self.model.live(ki) and ck.version == uuid and ck.key == "c/" + name:
+                return True
+        return False
+
     def integrity(self):
         """None or (clause, description): invariants over the WHOLE data store."""
         import hashlib
@@ -316,6 +361,8 @@ class StoreRun:
                     with open(os.path.join(vdir, u, name), "rb") as f:
                         b = f.read()
                     if hashlib.sha256(b).hexdigest() != name:
+                        if self.faulted and not self._referenced(u, name):
+                            continue  # partial object left by a failed write that nothing points to
                         return ("content-hash", "object c/.versions/%s/%s does not hash to its key" % (u, name[:12]))
                     per_hash.setdefault(name, []).append(u)
         for h, us in per_hash.items():
@@ -535,6 +582,8 @@ def alphabet(profile, keys, classes, small=False):
         if profile == "c07":
             ops.append(("memo", k2, "D", "k1"))
             ops.append(("memo", 0, "P", "k1"))
+            ops.append(("memo_fault", 0, "D"))
+            ops.append(("memo_fault", k2, "s"))
         ops.append(("wmeta", 0, "log", False))
         ops.append(("wmeta", 0, "log", True))
         ops.append(("wmeta", k2, "log", False))
@@ -566,6 +615,8 @@ def signature(cfg, op, clause, hist):
     o = op[0]
     if o == "memo":
         o += ":" + op[2] + ("+override" if op[3] else "")
+    if o == "memo_fault":
+        o += ":" + op[2]
     prev = "init"
     if hist:
         prev = hist[-1][0] + ((":" + str(hist[-1][2]) + ("+override" if hist[-1][3] else "")) if hist[-1][0] == "memo" else "")
